@@ -249,7 +249,7 @@ class RootSimplifier:
         return obs
 
 
-def eqs_elim(enc, name, pairs, hyps=(), roots=None, clear=False, twin=True):
+def eqs_elim(enc, name, pairs, hyps=(), roots=None, clear=False, twin=True, witness=False):
     """like core.eqs, but every goal polynomial has atan2 (S,C) pairs eliminated exactly (see elim_atan2), optionally square roots simplified by a
     RootSimplifier and (clear=True) inverse variables cleared exactly by the encoder (goal * prod(den^k), what the driver would do itself after a failed
     direct attempt)."""
@@ -263,10 +263,45 @@ def eqs_elim(enc, name, pairs, hyps=(), roots=None, clear=False, twin=True):
                 p = roots.apply(p)
         return p
     goal = [Constraint(1, f(P.sub(l, r)), "%s[%d] (atan2 pairs eliminated%s)" % (name, i, ", denominators cleared" if clear else "")) for i, (l, r) in enumerate(pairs)]
+    extra = seed_witness(enc, [P.sub(l, r) for l, r in pairs]) if witness else []
     tw = None
     if twin:
         for l, r in pairs:
             if r:
                 tw = [Constraint(1, f(P.sub(l, P.scale(r, 2))), name + " [twin]")]
                 break
-    return Ob(name, goal, hyps, tw)
+    return Ob(name, goal, hyps, tw, extra_smt=extra)
+
+
+def seed_witness(enc, diffs, tol=1e-6):
+    """If an equality goal is already false numerically at the executed seed, return SMT assertions that pin the free inputs at (a rational point next to) the seed,
+    so that the refutation search only has to confirm this witness (the solver is poor at finding models under a long path condition). Used ONLY when the goal fails
+    at the seed: the pins restrict the counter-model search, they never help to prove a goal. Angles are pinned on the unit circle through t = tan(a/2) rational."""
+    import math
+    R = enc.ring
+    bad = False
+    for p in diffs:
+        if not p:
+            continue
+        try:
+            v = R.evalf(p, enc.vals)
+        except Exception:
+            continue
+        mag = sum(abs(R.evalf({m: c}, enc.vals)) for m, c in p.items()) or 1.0
+        if v == v and abs(v) > tol * max(mag, 1e-6):
+            bad = True
+            break
+    if not bad:
+        return []
+    out = []
+    for name, vi in enc.input_var.items():
+        if R.kind[vi] == "free":
+            q = Fraction(enc.vals[vi]).limit_denominator(1 << 12)
+            out.append("(= %s %s)" % (R.names[vi], P.smt_rat(q)))
+    for key, at in enc.atoms.items():
+        if key[0] == "in" and at.get("exact") is None:
+            t = Fraction(math.tan(at["seed"] / 2.0)).limit_denominator(256)
+            sv, cv = 2 * t / (1 + t * t), (1 - t * t) / (1 + t * t)
+            out.append("(= %s %s)" % (R.names[at["S"]], P.smt_rat(sv)))
+            out.append("(= %s %s)" % (R.names[at["C"]], P.smt_rat(cv)))
+    return out
